@@ -62,6 +62,12 @@ class _SymCSC:
         self.dense = np.asarray(mat.todense(), dtype=float)
         self.shape = mat.shape
 
+    def __abs__(self):
+        return abs(self.mat)
+
+    def max(self):
+        return self.mat.max()
+
     def dot(self, x):
         x = np.asarray(x)
         if x.dtype != object:
